@@ -419,6 +419,13 @@ func (ev *tplEval) evalList(fc *fctx, e ast.Expr) (Sketch, bool) {
 			if fi := ev.w.Funcs[fn]; fi != nil {
 				return ev.listFromFunc(fi)
 			}
+			// library functions returning (a selection or rearrangement of) the elements of their first argument
+			switch fn.FullName() {
+			case "slices.Compact", "slices.Clone", "slices.Sorted", "slices.Clip", "slices.CompactFunc":
+				if len(call.Args) >= 1 {
+					return ev.evalList(fc, call.Args[0])
+				}
+			}
 		}
 		return nil, false
 	}
